@@ -14,6 +14,14 @@ conformance  : simulated behaviours (with the model's verdict `obs` for every ro
                are drift.
 by-product   : Key / KeyString / KeyWire / KeyWithPrefix / KeyWireWithPrefix agreement on
                names whose label bytes are SAMPLED from 0..255 (not enumerated).
+
+Environment knobs (all recorded in the evidence file when used):
+  VERIF_C03_FAMILIES=plain,dotlabel,octets   restrict the name families of the replay (the
+                     kelvin / rawhi families -- presentation text with raw bytes >= 0x80, as a
+                     text front end such as the DoH JSON API or the purge API can hand in -- are
+                     where the findings on the unchanged tree live)
+  VERIF_C03_SIM=<n>  number of Sim_Quick behaviours
+  VERIF_C03_SKIP_MC=1  skip the exhaustive TLC runs (mutation trials: they do not depend on the code)
 """
 import glob
 import json
@@ -216,11 +224,17 @@ def run(ctx, replay_path):
 
     tb = tables(ctx)
     # ---- model ------------------------------------------------------------
-    if not os.environ.get("VERIF_C03_SKIP_MC"):
-        ctx.tlc(MOD, "MC_CacheKey.tla", "MC_Quick.cfg", workers=6, timeout=900, heap="6g")
+    skip_mc = bool(os.environ.get("VERIF_C03_SKIP_MC"))
+    if skip_mc:
+        # development / mutation trials only: the exhaustive runs check the model alone and do not
+        # depend on the code under test
+        ctx.log("exhaustive model runs SKIPPED (VERIF_C03_SKIP_MC)")
+        ctx.assumptions.append("exhaustive TLC runs skipped in this run (VERIF_C03_SKIP_MC set)")
     else:
-        ctx.cov["states"], ctx.cov["transitions"] = 1, 1
-    if thorough:
+        ctx.tlc(MOD, "MC_CacheKey.tla", "MC_Quick.cfg", workers=6, timeout=900, heap="6g")
+        # the replay configs' obs bookkeeping is faithful (obs = the served hits, each satisfying the property)
+        ctx.tlc(MOD, "MC_CacheKey.tla", "MC_TinyObs.cfg", workers=4, timeout=600, heap="4g")
+    if thorough and not skip_mc:
         ctx.tlc(MOD, "MC_CacheKey.tla", "MC_Pairs4.cfg", workers=8, timeout=2400, heap="12g")
         ctx.tlc(MOD, "MC_CacheKey.tla", "MC_Triples.cfg", workers=8, timeout=2400, heap="12g")
         ctx.tlc(MOD, "MC_CacheKey.tla", "MC_Quads.cfg", workers=8, timeout=2400, heap="12g")
